@@ -987,6 +987,7 @@ impl<T: El> MapWorld<T> {
         let n0 = before.len();
         let mut yielded: Vec<(u32, u32)> = Vec::with_capacity(n0 + 4);
         let mut bad: Option<String> = None;
+        let mut dbg: Vec<(String, usize)> = Vec::with_capacity(2);
         self.call(|m| {
             let mut it = m.drain();
             let limit = if mode == MODE_CONSUME { usize::MAX } else { prefix as usize };
@@ -995,6 +996,10 @@ impl<T: El> MapWorld<T> {
                 let (lo, hi) = it.size_hint();
                 if (lo != n0 - n || hi != Some(n0 - n) || it.len() != n0 - n) && bad.is_none() {
                     bad = Some(harness(|| format!("drain size_hint {:?} len {} after {} of {}", (lo, hi), it.len(), n, n0)));
+                }
+                if mode == MODE_CONSUME && !T::ZST && (n == 0 || n == n0 / 2) {
+                    // Debug of the iterator lists exactly what is still to come
+                    harness(|| dbg.push((format!("{:?}", it), n)));
                 }
                 match it.next() {
                     Some((k, v)) => {
@@ -1022,6 +1027,26 @@ impl<T: El> MapWorld<T> {
         });
         if let Some(b) = bad {
             vbail!("mismatch", "{}", b);
+        }
+        for (d, at) in &dbg {
+            // same elements (Debug lists them in by-reference iteration order, which may differ)
+            let mut rest: Vec<(u32, u32)> = yielded.iter().skip(*at).copied().filter(|e| e.0 != u32::MAX).collect();
+            rest.sort();
+            let mut shown: Vec<(u32, u32)> = d
+                .trim_start_matches('[')
+                .trim_end_matches(']')
+                .split("), (")
+                .filter(|x| !x.is_empty())
+                .filter_map(|x| {
+                    let x = x.trim_start_matches('(').trim_end_matches(')');
+                    let mut it = x.split(", ");
+                    Some((it.next()?.parse().ok()?, it.next()?.parse().ok()?))
+                })
+                .collect();
+            shown.sort();
+            if shown != rest {
+                vbail!("mismatch", "Debug of the iterator after {} items shows {:?} but it then yields {:?}", at, shown, rest);
+            }
         }
         let mut y2 = yielded.clone();
         y2.sort();
@@ -1057,6 +1082,7 @@ impl<T: El> MapWorld<T> {
         let old = std::mem::replace(&mut self.m, fresh);
         let mut yielded: Vec<(u32, u32)> = Vec::with_capacity(n0 + 4);
         let mut bad: Option<String> = None;
+        let mut dbg: Vec<(String, usize)> = Vec::with_capacity(2);
         window(|| {
             let mut it = old.into_iter();
             let limit = if mode == MODE_CONSUME { usize::MAX } else { prefix as usize };
@@ -1065,6 +1091,10 @@ impl<T: El> MapWorld<T> {
                 let (lo, hi) = it.size_hint();
                 if (lo != n0 - n || hi != Some(n0 - n) || it.len() != n0 - n) && bad.is_none() {
                     bad = Some(harness(|| format!("into_iter size_hint {:?} len {} after {} of {}", (lo, hi), it.len(), n, n0)));
+                }
+                if mode == MODE_CONSUME && !T::ZST && (n == 0 || n == n0 / 2) {
+                    // Debug of the iterator lists exactly what is still to come
+                    harness(|| dbg.push((format!("{:?}", it), n)));
                 }
                 match it.next() {
                     Some((k, v)) => {
@@ -1092,6 +1122,26 @@ impl<T: El> MapWorld<T> {
         });
         if let Some(b) = bad {
             vbail!("mismatch", "{}", b);
+        }
+        for (d, at) in &dbg {
+            // same elements (Debug lists them in by-reference iteration order, which may differ)
+            let mut rest: Vec<(u32, u32)> = yielded.iter().skip(*at).copied().filter(|e| e.0 != u32::MAX).collect();
+            rest.sort();
+            let mut shown: Vec<(u32, u32)> = d
+                .trim_start_matches('[')
+                .trim_end_matches(']')
+                .split("), (")
+                .filter(|x| !x.is_empty())
+                .filter_map(|x| {
+                    let x = x.trim_start_matches('(').trim_end_matches(')');
+                    let mut it = x.split(", ");
+                    Some((it.next()?.parse().ok()?, it.next()?.parse().ok()?))
+                })
+                .collect();
+            shown.sort();
+            if shown != rest {
+                vbail!("mismatch", "Debug of the iterator after {} items shows {:?} but it then yields {:?}", at, shown, rest);
+            }
         }
         let mut y2 = yielded.clone();
         y2.sort();
